@@ -60,7 +60,7 @@ func (e *Env) NewPt(level int) *rlwe.Plaintext {
 	return rlwe.NewPlaintext(e.RLWE, level)
 }
 
-var allShapes = []Shape{ShapeLargerDegree, ShapeLargerLevel, ShapeGarbage, ShapeSmallerLevel}
+var allShapes = []Shape{ShapeDirtyWords, ShapeDirtyMeta, ShapeLargerDegree, ShapeLargerLevel, ShapeSmallerLevel}
 
 // ctOut is the output spec of an operation whose result is a ciphertext of degree degf(d0,d1) at the
 // minimum level of its element operands (first two inputs).
@@ -180,7 +180,7 @@ func ctKind(name string, degree, dLevel int, tweak func(e *Env, ct *rlwe.Ciphert
 	for i := range extra {
 		names = append(names, "arg"+string(rune('1'+i)))
 	}
-	return Kind{Name: name, Names: names, Make: func(e *Env, g *Gen) []interface{} {
+	return Kind{Name: name, Class: "ct", Names: names, Make: func(e *Env, g *Gen) []interface{} {
 		ct := g.Ct(e, degree, e.MaxLevel()+dLevel)
 		if tweak != nil {
 			tweak(e, ct)
